@@ -160,13 +160,30 @@ def marking_equations(ck, an, want: set):
             snap["test"] = s
     fw = Forward(an, fa, on_stmt=on_stmt).run()
     if "guards" in want:
-        # margin-free contracts are skipped before any write
+        # margin-free contracts are skipped before any write; every other skip is the NaN-quote skip or the no-reference-yet skip
         skip_tests = []
+        kinds = {"no-margin": 0, "nan-quote": 0, "no-reference": 0}
         for n in ast.walk(loop):
-            if isinstance(n, ast.Continue):
+            if isinstance(n, (ast.Continue, ast.Break, ast.Return)):
                 sg = fa.syntactic_guards(n)
-                if any((p[0] == "rel" and p[1] == "==" and p[2].endswith(".margin_requirement") and cvar in p[2]) or (p[0] == "truthy" and not p[2] and p[1].endswith(".margin_requirement") and cvar in p[1]) for p in sg):
+                in_keyerror = any(isinstance(x, ast.ExceptHandler) and x.type is not None and "KeyError" in ast.unparse(x.type) for x in parents(n))
+                mr = [p for p in sg if (p[0] == "rel" and p[1] == "==" and len(p[4].t) == 1 and p[2].endswith(".margin_requirement") and cvar in p[2]) or
+                      (p[0] == "truthy" and not p[2] and p[1].endswith(".margin_requirement") and cvar in p[1])]
+                nanq = [p for p in sg if p[0] == "truthy" and p[2] and "isnan(" in p[1] and ("liq_price(" in p[1] or "acq_price(-" in p[1])]
+                if isinstance(n, ast.Continue) and len(sg) == 1 and mr:
+                    kinds["no-margin"] += 1
                     skip_tests.append(next(x for x in parents(n) if isinstance(x, ast.If)).test)
+                elif isinstance(n, ast.Continue) and len(sg) == 1 and nanq:
+                    kinds["nan-quote"] += 1
+                elif isinstance(n, ast.Continue) and not sg and in_keyerror:
+                    kinds["no-reference"] += 1
+                else:
+                    ck.fail("GUARD", "S4.no-other-skip-in-marking", subj, fa.loc(n), f"marking_to_market skips contracts under {[cmp_key(p) for p in sg] or 'an unexpected path'}: positions would keep a stale margin / NLV",
+                            construct=stmt_text(next((x for x in parents(n) if isinstance(x, ast.If)), n)))
+        ck.check(kinds["nan-quote"] == 1, "GUARD", "S4.nan-quote-skipped", subj, fa.loc(loop), "a contract without a liquidation quote (NaN) is skipped, not marked with NaN",
+                 f"{kinds['nan-quote']} NaN-quote skips in marking_to_market (expected exactly one `if isnan(liq_price): continue`)", construct="if np.isnan(liq_price): continue")
+        ck.check(kinds["no-reference"] == 1, "GUARD", "S4.no-reference-skipped", subj, fa.loc(loop), "a contract never traded (no reference price) is skipped", f"{kinds['no-reference']} KeyError skips (expected one)",
+                 construct="except KeyError: continue")
         if not skip_tests:
             ck.fail("GUARD", "S4.no-margin-no-writes", subj, fa.loc(loop), "contracts with margin_requirement == 0 are not skipped", construct="missing:if contract.margin_requirement == 0: continue")
         else:
@@ -359,6 +376,31 @@ def valuation_formulas(ck, an, want: set):
         ck.check(bool(margin_atoms) and got == w, "LIN", "S6.value-liquidation", subj, fa.loc(node),
                  "liquidation value = cash requirement x position x liquidation price x multiplier + posted margin",
                  f"liquidation value = {got.key()}, expected {(creq * q * price * mult).key()} + posted margin of the contract", construct="kind == 'liquidation'")
+    # the formulas apply to non-flat positions only, flat ones are worth 0, and every contract's value is stored and returned
+    for kind, (got_, node_) in branch_vals.items():
+        if node_ is None:
+            continue
+        preds = fa.guard_predicates(node_.body[0])
+        ck.check(any(p[0] == "rel" and p[1] == "!=" and p[4] == Poly.atom(f"{qvar}∈unpack({fa.sym.canon(loop.iter)})") or (p[0] == "rel" and p[1] == "!=" and qvar in p[2] and len(p[4].t) == 1) for p in preds), "GUARD", f"S6.value-{kind}-for-nonflat",
+                 subj, fa.loc(node_), f"the {kind} formula is applied to positions with quantity != 0", f"the {kind} formula is guarded by {[cmp_key(p) for p in preds]} (not by quantity != 0)", construct=f"kind == '{kind}' guard")
+    stores = [n for n in ast.walk(loop) if isinstance(n, ast.Assign) and isinstance(n.targets[0], ast.Subscript) and isinstance(n.value, ast.Name)]
+    ok_store = len(stores) == 1 and not fa.syntactic_guards(stores[0]) and ast.unparse(stores[0].targets[0].slice) == cvar
+    ck.check(ok_store, "ARGFLOW", "S6.value-stored-per-contract", subj, fa.loc(loop), "every position's value is stored under its contract, unconditionally", "the per-contract value is not stored unconditionally under the contract",
+             construct="holdings_values[contract] = value")
+    if ok_store:
+        st0 = stores[0]
+        defs = fa.rd.reaching(st0.value.id, fa.node_of(st0).id)
+        zero = [d for d in defs if d.kind == "assign" and const_value(d.value) in (0, 0.0) and not isinstance(const_value(d.value), bool)]
+        nonzero_const = [d for d in defs if d.kind == "assign" and isinstance(d.value, ast.Constant) and d not in zero]
+        ck.check(bool(zero) and not nonzero_const, "CONST", "S6.flat-worth-zero", subj, fa.loc(st0), "a flat position is worth 0", f"flat positions are valued {[ast.unparse(d.value) for d in nonzero_const] or 'by no constant 0'}",
+                 construct="value = 0.0")
+        rets = returns_in(fa)
+        cont = ast.unparse(st0.targets[0].value)
+        ck.check(len(rets) == 1 and ast.unparse(rets[0].value) == cont, "ARGFLOW", "S6.values-returned", subj, fa.f.loc, "the mapping of values is returned", f"holdings_values returns {[ast.unparse(r.value) for r in rets]}",
+                 construct="return holdings_values")
+        it = fa.sym.canon(loop.iter)
+        ck.check(it == "self._holdings_quantity.items()" and not any(isinstance(x, (ast.Continue, ast.Break)) for x in ast.walk(loop)), "ARGFLOW", "S6.all-positions-valued", subj, fa.loc(loop), "every entry of the position ledger is valued",
+                 f"the valuation loop ranges over {it} or skips entries", construct=stmt_text(loop))
     if "nlv" in want:
         fn = an.fa("Broker.net_liquidation_value")
         mt = fn.calls_to("Broker.marking_to_market")
